@@ -388,8 +388,8 @@ func (c *compiler) compile(tok *token) []instruction {
 			todo = append(todo, instruction{Code: infixMap[tok.Symbol[:len(tok.Symbol)-1]]})
 		}
 		arg := tok.Tokens[0]
-		if (arg.Symbol == "index" || arg.Symbol == ".") && hasCall(arg) {
-			// m[next()] += v, next().x++: the operands of the target are evaluated once, into hidden slots
+		if (arg.Symbol == "index" || arg.Symbol == ".") && (hasCall(arg) || (len(tok.Tokens) > 1 && hasCall(tok.Tokens[1]))) {
+			// m[next()] += v, next().x++, xs[i] += bump(): the operands of the target are evaluated once, into hidden slots
 			const indexItem, indexKey = 0, 1
 			item := c.Locals.Index(tok.Pos.String() + "#item")
 			res = append(res, c.compile(arg.Tokens[indexItem])...)
